@@ -5,6 +5,7 @@ package main
 import (
 	"fmt"
 	"go/constant"
+	"go/token"
 	"go/types"
 	"strconv"
 	"strings"
@@ -270,16 +271,6 @@ func (e *Env) lookupLocal(name string) (tval, bool) {
 		return tval{}, false
 	}
 	fr := e.fr
-	for i, p := range fn.Params {
-		if p.Name() == name {
-			if i < len(fr.params) {
-				return tval{T: p.Type(), C: fr.params[i]}, true
-			}
-			if c, ok := fr.regs[p]; ok {
-				return tval{T: p.Type(), C: c}, true
-			}
-		}
-	}
 	if e.loop != nil {
 		for _, in := range e.loop.header.Instrs {
 			phi, ok := in.(*ssa.Phi)
@@ -290,6 +281,16 @@ func (e *Env) lookupLocal(name string) (tval, bool) {
 				if c, ok := e.phi[phi]; ok {
 					return tval{T: phi.Type(), C: c}, true
 				}
+			}
+		}
+	}
+	for i, p := range fn.Params {
+		if p.Name() == name {
+			if i < len(fr.params) {
+				return tval{T: p.Type(), C: fr.params[i]}, true
+			}
+			if c, ok := fr.regs[p]; ok {
+				return tval{T: p.Type(), C: c}, true
 			}
 		}
 	}
@@ -326,12 +327,21 @@ func (e *Env) lookupLocal(name string) (tval, bool) {
 			}
 			if _, ok := fr.regs[dr.X]; !ok {
 				if _, isC := dr.X.(*ssa.Const); !isC {
-					continue
+					in2, isIn := dr.X.(ssa.Instruction)
+					if !(e.loop != nil && isIn && in2.Block() == e.loop.header) {
+						continue
+					}
 				}
 			}
 			if e.loop != nil {
+				if in2, ok := dr.X.(ssa.Instruction); ok && in2.Block() != nil && !in2.Block().Dominates(e.loop.header) {
+					continue // another variable of the same name in an unrelated scope
+				}
 				if in2, ok := dr.X.(ssa.Instruction); ok && e.loop.body[in2.Block()] {
-					if _, isPhi := dr.X.(*ssa.Phi); !isPhi || in2.Block() != e.loop.header {
+					if in2.Block() != e.loop.header {
+						continue
+					}
+					if _, ok := e.evalPure(dr.X, 0); !ok {
 						continue
 					}
 				}
@@ -340,14 +350,49 @@ func (e *Env) lookupLocal(name string) (tval, bool) {
 		}
 	}
 	if best != nil {
-		if phi, ok := best.(*ssa.Phi); ok && e.phi != nil {
-			if c, ok := e.phi[phi]; ok {
-				return tval{T: best.Type(), C: c}, true
-			}
+		if c, ok := e.evalPure(best, 0); ok {
+			return tval{T: best.Type(), C: c}, true
 		}
 		return tval{T: best.Type(), C: fr.val(best)}, true
 	}
 	return tval{}, false
+}
+
+// evalPure re-evaluates a value of the loop header block as a function of the
+// header's phi nodes (so that `i` of `for i := range s`, which go/ssa computes as
+// phi+1 in the header, can be used in invariants on entry and back edges).
+func (e *Env) evalPure(v ssa.Value, depth int) ([]string, bool) {
+	if depth > 4 {
+		return nil, false
+	}
+	if e.loop == nil {
+		return e.fr.val(v), true
+	}
+	switch x := v.(type) {
+	case *ssa.Phi:
+		if x.Block() == e.loop.header {
+			c, ok := e.phi[x]
+			return c, ok
+		}
+	case *ssa.Const:
+		return e.fr.val(v), true
+	case *ssa.BinOp:
+		if x.Block() == e.loop.header && isInteger(x.Type()) && (x.Op == token.ADD || x.Op == token.SUB) {
+			a, ok1 := e.evalPure(x.X, depth+1)
+			b, ok2 := e.evalPure(x.Y, depth+1)
+			if ok1 && ok2 {
+				if x.Op == token.ADD {
+					return []string{sAdd(a[0], b[0])}, true
+				}
+				return []string{sSub(a[0], b[0])}, true
+			}
+			return nil, false
+		}
+	}
+	if in, ok := v.(ssa.Instruction); ok && e.loop.body[in.Block()] {
+		return nil, false
+	}
+	return e.fr.val(v), true
 }
 
 func identName(dr *ssa.DebugRef) string {
@@ -439,7 +484,7 @@ func (e *Env) evalSel(x ESel) (tval, error) {
 		}
 	}
 	if addr != nil {
-		fa := []string{addr[0], sAdd(addr[1], sInt(int64(off)))}
+		fa := []string{addr[0], e.vc().addSlot(addr[1], off)}
 		return e.load(fa, ft, e.st), nil
 	}
 	n := e.l().sizeOf(ft)
